@@ -243,6 +243,11 @@ static void fn_dispatch(const char *s, int n)
 }
 
 /* jobs: 0..6 validation by first char (len<=7), 7 boundary; 8..14 matching by first char; 15 long; 16.. dispatch per domain */
+static void boot_failed(const struct w_server_cfg *c, int state)
+{
+	viol("valid-domain-rejected", "the server does not start with the valid tunnel domain %s (start-up ended in state %d)", c->topdomain, state);
+}
+
 static void job(int j)
 {
 	int vmax = 7, mmax = thorough ? 8 : 7;
@@ -260,7 +265,9 @@ static void job(int j)
 			.mtu = 1130, .check_ip = 1, .bind_port = 5353, .srand_seed = 1 };
 		vw_init();
 		W.hooks.on_sanitizer = NULL;
+		adv_boot_failed = boot_failed;
 		adv_boot(&c, 0, 1);
+		if (!vw_alive(0) || W.proc[0].state != VW_P_SELECT) return;
 		vw_mkaddr(&peer, &peerlen, "198.51.100.9", 3333);
 		cur_dom = DOMAINS[d];
 		int dmax = thorough ? 6 : 5;
